@@ -77,7 +77,14 @@ def plan(tier, seed):
         enc_ns = sorted(set(range(1, 601)) | set(range(600, 4090, 97)) | set(range(4090, nenc)))
     for k in range(0, len(enc_ns), 25):
         tasks.append(("enc_api", enc_ns[k:k + 25]))
+    from mc.props import c01
+    nb = [f for f in c01.families(tier) if f[0] == "nested-budgets" and f[1] == "default"][0][2]
+    for k in range(0, len(nb), 200):
+        tasks.append(("dec_nested", (k, k + 200, tier)))
     scopes = [
+        {"name": "dec_nested", "desc": "%d strings: an outer branch of every budget around an inner branch whose last symbol is a ring "
+                                       "or branch symbol, so that index symbols lie beyond the inner (and around the outer) budget; the "
+                                       "decoder against the reference model (what the index of every branch symbol spans)" % len(nb)},
         {"name": "enc_fn", "desc": "encoder-side conversion of every n in [0,%d)" % nmax},
         {"name": "dec_fn", "desc": "decoder-side conversion of every tuple of length 1..%d over 19 digit tokens"
                                    % (4 if thorough else 3)},
@@ -100,6 +107,30 @@ def plan(tier, seed):
 def run(task):
     scope, arg = task
     return globals()["run_" + scope](arg)
+
+
+def run_dec_nested(arg):
+    from mc.props import c01
+    from mc.oracles import deccmp
+    import selfies as sf
+    lo, hi, tier = arg
+    r = Result()
+    nb = [f for f in c01.families(tier) if f[0] == "nested-budgets" and f[1] == "default"][0][2]
+    sf.set_semantic_constraints("".join(list("default")))
+    table = sf.get_semantic_constraints()
+    for label, x in nb[lo:hi]:
+        r.evaluations += 1
+        r.transitions += 1
+        verdict, got = deccmp.compare(sf, x, misc.tokenize(x), table)
+        if verdict is not None:
+            r.violation("dec_nested:" + verdict[0], {"kind": "dec_nested", "selfies": x}, verdict[1])
+        else:
+            r.validated += 1
+            r.nontrivial.add(h64(x))
+    r.states = r.evaluations
+    if lo == 0:
+        r.sample({"string": nb[0][1]}, 1)
+    return r
 
 
 def _fns():
@@ -378,6 +409,12 @@ def replay(case):
         return [v] if v else []
     elif k == "enc_api":
         return check_enc(case["n"])
+    elif k == "dec_nested":
+        from mc.oracles import deccmp
+        import selfies as sf
+        sf.set_semantic_constraints("default")
+        verdict, got = deccmp.compare(sf, case["selfies"], misc.tokenize(case["selfies"]), sf.get_semantic_constraints())
+        return [("dec_nested:" + verdict[0], verdict[1])] if verdict else []
     for sig, lst in rr.viol.items():
         for v in lst:
             out.append((sig, v["detail"]))
